@@ -34,6 +34,7 @@ FIXED_SPECIES = {
     "B": [("XB", ["N1", "C1"]), ("XB", ["N1", "C1"]), ("YB", ["P1"])],
     "C": [("PCHOL", ["C1", "C2", "C3", "C4"]), ("PCHOM", ["O1", "H1"])],      # five-character names, equal up to the last letter
     "D": [("AAA", ["S1", "S2"])],
+    "E": [("QE", ["C1"]), ("XB", ["N1", "C1"])],          # ends in the residue kind B starts with
     "W": [("SOL", ["OW", "HW1", "HW2"])],
 }
 UNLOADED = {"W"}
